@@ -10,6 +10,7 @@ import (
 	"github.com/bluenviron/gomavlib/v3/pkg/dialects/ardupilotmega"
 	"github.com/bluenviron/gomavlib/v3/pkg/dialects/common"
 	"github.com/bluenviron/gomavlib/v3/pkg/frame"
+	"github.com/bluenviron/gomavlib/v3/pkg/message"
 	"pgregory.net/rapid"
 
 	"verifharness/evid"
@@ -35,7 +36,7 @@ func TestC11FanOutAcrossReplacedChannels(t *testing.T) {
 		ns := rapid.IntRange(10, 40).Draw(t, "steps")
 		lastEx := -1
 		for i := 0; i < ns; i++ {
-			s := step{op: rapid.SampledFrom([]string{"all", "except", "except", "except", "frame-except", "to", "flap", "flap", "except-closed", "except-nil"}).Draw(t, "op"), link: rapid.IntRange(0, nl-1).Draw(t, "link")}
+			s := step{op: rapid.SampledFrom([]string{"all", "except", "except", "except", "frame-except", "to", "flap", "flap", "except-closed", "except-nil", "to-closed"}).Draw(t, "op"), link: rapid.IntRange(0, nl-1).Draw(t, "link")}
 			if (s.op == "except" || s.op == "frame-except") && lastEx >= 0 && rapid.IntRange(0, 2).Draw(t, "same_exclusion_again") > 0 {
 				s.link = lastEx
 			}
@@ -74,6 +75,7 @@ func TestC11FanOutAcrossReplacedChannels(t *testing.T) {
 		counter := 0
 		lastExcept, flappedSince, covered := -1, false, false
 		oneLeft := false
+		toClosed := false
 		for si, s := range steps {
 			switch s.op {
 			case "flap":
@@ -110,6 +112,7 @@ func TestC11FanOutAcrossReplacedChannels(t *testing.T) {
 			item := counter
 			counter++
 			m := &common.MessageDebug{TimeBootMs: uint32(item), Ind: 3}
+			_ = toClosed
 			var err error
 			var targets []int
 			switch s.op {
@@ -144,6 +147,15 @@ func TestC11FanOutAcrossReplacedChannels(t *testing.T) {
 					targets = append(targets, i)
 				}
 				oneLeft = oneLeft || nl == 1
+			case "to-closed":
+				// a write that names a channel which has ended reaches nothing - not the channel that replaced it either
+				if len(gone) == 0 {
+					counter--
+					continue
+				}
+				err = n.WriteMessageTo(gone[len(gone)-1], m)
+				targets = nil
+				toClosed = true
 			case "except-nil":
 				// an exclusion that names no channel excludes none
 				err = n.WriteMessageExcept(nil, m)
@@ -178,16 +190,39 @@ func TestC11FanOutAcrossReplacedChannels(t *testing.T) {
 				}
 			}
 		}
+		// one last item to all: whatever was queued before it (rightly or wrongly) is on the wires when it is
+		{
+			if err := n.WriteMessageAll(&common.MessageDebug{TimeBootMs: uint32(counter), Ind: 3}); err != nil {
+				fail("last write refused: %v", err)
+			}
+			for i := range pipes {
+				want[i] = append(want[i], counter)
+				okw := false
+				for try := 0; try < 4000 && !okw; try++ {
+					cs, _ := allCounters(pipes[i])
+					okw = len(cs) > 0 && cs[len(cs)-1] == counter
+					if !okw {
+						sleepShort()
+					}
+				}
+				if !okw {
+					fail("the last item (written to all) did not reach link %d", i)
+				}
+			}
+		}
 		for i, p := range pipes {
 			cs, err := allCounters(p)
 			if err != nil {
 				fail("link %d: %v", i, err)
 			}
 			if fmt.Sprint(cs) != fmt.Sprint(want[i]) {
-				fail("link %d carries the items %v, addressed to it were %v", i, cs, want[i])
+				fail("link %d carries the items %v, addressed to it were %v (a write that names a channel which has ended reaches nothing)", i, cs, want[i])
 			}
 		}
 		var cls []string
+		if toClosed {
+			cls = append(cls, "write-naming-a-channel-that-has-ended")
+		}
 		if covered {
 			cls = append(cls, "same-exclusion-before-and-after-another-link-was-replaced")
 		}
@@ -262,7 +297,7 @@ func TestC11ForwardedFramesOfANamesake(t *testing.T) {
 		nch := rapid.IntRange(2, 3).Draw(t, "nch")
 		v2 := rapid.Bool().Draw(t, "v2")
 		n0 := rapid.IntRange(10, 40).Draw(t, "items")
-		kinds := rapid.SliceOfN(rapid.IntRange(0, 4), n0, n0).Draw(t, "kinds") // 0,1: own message; 2: namesake; 3: same system; 4: stranger
+		kinds := rapid.SliceOfN(rapid.IntRange(0, 5), n0, n0).Draw(t, "kinds") // 0,1: own message; 2: namesake; 3: same system; 4: stranger; 5: raw frame with an id at the end of its range
 		desc := fmt.Sprintf("links=%d v2=%v items=%v", nch, v2, kinds)
 		pipes := make([]*sim.Pipe, nch)
 		var endpoints []gomavlib.EndpointConf
@@ -293,6 +328,24 @@ func TestC11ForwardedFramesOfANamesake(t *testing.T) {
 					t.Fatalf("write refused: %v", err)
 				}
 				want = append(want, nil)
+				continue
+			}
+			if k == 5 {
+				// the largest ids a frame of either version can carry (and their neighbours), as raw frames of a sender
+				// the node knows nothing about: forwarded like any other
+				f := ref.Frame{V2: i%2 == 0, Seq: byte(i), Sys: 77, Comp: 88, Payload: []byte{byte(i), 2, 3}, Checksum: 0x5151}
+				var fr frame.Frame
+				if f.V2 {
+					f.ID = []uint32{0xFFFFFF, 0xFFFFFE, 65536, 65535, 255}[i/2%5]
+					fr = &frame.V2Frame{SequenceNumber: f.Seq, SystemID: 77, ComponentID: 88, Message: &message.MessageRaw{ID: f.ID, Payload: f.Payload}, Checksum: f.Checksum}
+				} else {
+					f.ID = []uint32{255, 253, 255}[i/2%3]
+					fr = &frame.V1Frame{SequenceNumber: f.Seq, SystemID: 77, ComponentID: 88, Message: &message.MessageRaw{ID: f.ID, Payload: f.Payload}, Checksum: f.Checksum}
+				}
+				if err := n.WriteFrameAll(fr); err != nil {
+					t.Fatalf("forwarding refused: %v", err)
+				}
+				want = append(want, f.Bytes())
 				continue
 			}
 			fr, f := fwdFrame(1, i, v2, i%3 == 0)
